@@ -5,6 +5,10 @@ V = os.path.dirname(os.path.dirname(os.path.abspath(__file__)))
 ids = [json.loads(l)["id"] for l in open(os.path.join(V, "properties.jsonl"))]
 
 CHECKS = {
+ "C08": dict(cat="exploration", design="§4 C08",
+   technique="property-based testing: Hypothesis-generated object histories (model-based) against a reference interpreter with an object heap",
+   text="Three classes (scalar/list/optional/class-typed fields, constructor with parameters, getters, setters, op-assign on fields, methods calling methods, methods returning self/Self and constructing Self, a method taking another instance, same member names in two classes) are driven by random histories of up to 15 steps (construct, alias, method and chained calls, field read/write/op-assign, writes through a nested field, passing to a function, list storage, `is`, replacing a class-typed field); the `n` of every live object is printed after each step and stdout must equal the reference interpreter's. Exploration: the class shapes are a fixed family with randomised constants; histories are sampled.",
+   note="Reference interpreter trusted. Failures inside constructors and printing of objects are not generated."),
  "C07": dict(cat="exploration", design="§4 C07",
    technique="property-based testing: Hypothesis-generated closure scenes + call/assignment histories against a reference interpreter with explicit cells",
    text="Random scenes (module variables; factories whose locals are captured singly, shared by two closures in a list, or two levels deep; reader/setter/incrementer/shadowing/looping bodies; a higher-order caller that owns locals with the same names as captured variables; factory locals shadowing module variables) are driven by histories of up to 12 steps (instantiate, call directly / via alias / via list element / via higher-order function / inside a loop, owner assignment, is_closure) with the observable state printed after every step; stdout must equal the reference interpreter's. Exploration of scenes and histories, not exhaustive.",
